@@ -150,8 +150,8 @@ static const cfg_t cfgs[] = {
      * are unchanged).  ABT_pool_push/pop/pop_wait (ABT_unit based),
      * ABT_pool_push_threads_ex / pop_threads_ex / pop_wait_thread_ex ---- */
     XMIXES(ABT_POOL_FIFO, "FIFO", 1, 0, 1, 0),
-    XMIXES(ABT_POOL_FIFO_WAIT, "FIFO_WAIT", 0, 1, 0, 1),
-    XMIXES(ABT_POOL_RANDWS, "RANDWS", 0, 0, 1, 1),
+    XMIXES(ABT_POOL_FIFO_WAIT, "FIFO_WAIT", 0, 1, 0, 0),
+    XMIXES(ABT_POOL_RANDWS, "RANDWS", 0, 0, 0, 1),
     /* FIFO_WAIT push_many broadcasts when it adds more than one unit: two
      * sleeping waiters, both must get a unit or justify an empty hand */
     { "FIFO_WAIT SPMC popwaitU|popwaitX(sec)|push2X(create) (broadcast)", 1,
@@ -702,6 +702,23 @@ static void scenario(int cfg)
     ABT_bool emp;
     OK(ABT_pool_get_size(Q, &sz));
     OK(ABT_pool_is_empty(Q, &emp));
+    if (C->seq_depth > 0 && C->seq_alpha == A_EX) {
+        /* a pop_many with room for no unit pops nothing and says so: "the
+         * number of popped work units is set to num" (ABT_pool_pop_threads_ex) */
+        ABT_thread none[1] = { ABT_THREAD_NULL };
+        size_t n0 = 99, sz0 = 99;
+        OK(ABT_pool_pop_threads_ex(Q, none, 0, &n0, CTX[X_SEC]));
+        abtmc_check(n0 == 0, "pop_many_len0_count",
+                    "ABT_pool_pop_threads_ex(len=0) left num=%zu", n0);
+        n0 = 99;
+        OK(ABT_pool_pop_threads(Q, none, 0, &n0));
+        abtmc_check(n0 == 0, "pop_many_len0_count",
+                    "ABT_pool_pop_threads(len=0) left num=%zu", n0);
+        OK(ABT_pool_get_size(Q, &sz0));
+        abtmc_check(sz0 == sz && none[0] == ABT_THREAD_NULL, "pop_many_count",
+                    "pop_threads(len=0) changed the pool: size %zu -> %zu", sz,
+                    sz0);
+    }
     int drained = 0;
     opspec pop = { O_POP, 0, 0, 0 };
     for (;;) {
